@@ -65,6 +65,14 @@ AllocRecorded == [][(last'.op = "alloc" /\ last'.ret >= 0) =>
                         /\ Live(tbl) \subseteq Live(tbl'))]_vars
 FreeExact     == [][(last'.op = "free") => Live(tbl') = {e \in Live(tbl) : e.off # last'.n}]_vars
 
+\* the same step clauses on interval arithmetic (no cell sets), usable at any D -- checked next to the cell-level
+\* ones in the exhaustive runs and alone while validating real traces on large regions
+CompletenessT  == [][(last'.op = "alloc" /\ last'.ret < 0) => (FullT(tbl) \/ ~HasGap(tbl, last'.n))]_vars
+AllocRecordedT == [][(last'.op = "alloc" /\ last'.ret >= 0) =>
+                        (/\ [off |-> last'.ret, len |-> last'.n] \in Live(tbl')
+                         /\ FreeT(tbl, last'.ret, last'.n)
+                         /\ Live(tbl) \subseteq Live(tbl'))]_vars
+
 \* ------------------------------------------------------------------ sanity of the vocabulary (small D only)
 \* interval arithmetic = cell arithmetic; the three characterisations of "a gap >= n exists" agree
 CellsAgree == DisjointT(tbl) <=> DisjointCells(tbl)
